@@ -5,7 +5,7 @@
 DIR="$1"; TIER="${2:-quick}"
 SH_I="${MUT_SHARD%%/*}"; SH_N="${MUT_SHARD##*/}"
 [ -z "$MUT_SHARD" ] && { SH_I=0; SH_N=1; }
-M=/root/scratch/fa$SH_I
+M=/root/scratch/fa${FA_TAG}$SH_I
 git -C /repo worktree remove --force $M/repo 2>/dev/null
 mkdir -p $M && rm -rf $M/verif
 git -C /repo worktree add --detach $M/repo HEAD >/dev/null 2>&1 || exit 2
